@@ -16,6 +16,7 @@ external drv_terminate : nativeint -> int = "drv_terminate"
 external drv_kill : nativeint -> int = "drv_kill"
 external drv_destroy : nativeint -> bool = "drv_destroy"
 external drv_pattern : int -> int -> int = "drv_pattern"
+external drv_heap_check : unit -> unit = "drv_heap_check"
 
 type credirect = int * int * int * string option
 type cstop = int * int * int * int * int * int
@@ -143,6 +144,10 @@ let exec_sop_impl (o : sop) : opres =
      | None -> raise (Crash_exn 1))
   | SUserClose fd -> run (user_close fd); RUnit
   | SUserCloexec (fd, on) -> run (user_cloexec fd on); RUnit
+  | SUserOpen _ | SUserRlimit _ ->
+    (match exec_sop o init_rstate !world with
+     | Ret ((res, _), w) -> world := w; res
+     | _ -> raise (Crash_exn 2))
 
 let exec_op_impl (o : op) : opres =
   match o with
@@ -188,6 +193,7 @@ let run_impl (sc : scenario) : runres * string list =
   Hashtbl.reset slots; Hashtbl.reset woff; flags := [];
   let steps = ref [] in
   let finish fin pend =
+    drv_heap_check ();
     ({ r_steps = List.rev !steps; r_final = fin; r_pending = pend; r_last = !world }, !flags) in
   let rec go = function
     | [] -> finish FDone None
